@@ -17,6 +17,11 @@ let dispatch fn args = match fn, args with
     (match perm_lookup perm_table (z_of_hex m) with
      | None -> "none"
      | Some (e, mo) -> hex_of_z e ^ "," ^ hex_of_z mo)
+  | "apiEntryCount", [] -> string_of_int (len api_entry_mode_lists)
+  | "apiEntry", [i] ->
+    (match List.nth_opt api_entry_mode_lists (int_of_string i) with
+     | None -> "none"
+     | Some l -> string_of_zlist l)
   | "tableSize", [] -> string_of_int (len perm_table)
   (* opw / upw: the raw password bytes as hex pairs ("" = empty string) *)
   | "handlePermissions", [pok; opw; upw; m; p; r] ->
